@@ -193,9 +193,14 @@ func (p *timechartProcessor) Process(inputIQR *iqr.IQR) (*iqr.IQR, error) {
 				p.errorData.readColumns[byField] = err
 			} else {
 				strVal, err := value.GetString()
-				if err != nil {
-					p.errorData.getStringErrors[byField] = err
-					strVal = fmt.Sprintf("%v", value)
+				if err != nil || value.Dtype == sutils.SS_DT_FLOAT {
+					if err != nil {
+						p.errorData.getStringErrors[byField] = err
+					}
+					// the value itself, not the enclosure, so that the series are named as in the
+					// timechart computed by the search: "<nil>" for a record without the by field,
+					// 2.5 and not 2.500000
+					strVal = fmt.Sprintf("%v", value.CVal)
 				}
 				groupByColVal = strVal
 			}
